@@ -418,6 +418,25 @@ Definition answers (m : tmsg) (k : N) (c : call) : bool :=
   | _ => false
   end.
 
+(* m is a response that echoes serial k *)
+Definition answers_serial (m : tmsg) (k : N) : bool :=
+  match m with TResp _ e => e =? k | _ => false end.
+(* no response echoing k was taken from msgChan in this stretch of the trace *)
+Definition noseen (k : N) (a : list obs) : Prop := forall m, In (OSeen m) a -> answers_serial m k = false.
+
+(* the run predicate of the matching theorems: no serial was handed out while still in use *)
+Definition no_reuse (tr : list obs) : Prop := ~ In OReuse tr.
+
+(* number of choices of a schedule that were enabled (not skipped) *)
+Fixpoint executed (s : st) (sched : list choice) : nat :=
+  match sched with
+  | [] => O
+  | c :: t => match step s c with
+              | Some (s', _) => S (executed s' t)
+              | None => executed s t
+              end
+  end.
+
 (* the measure that every internal step decreases *)
 Definition w_mop (o : mop) : nat := match o with MRoute _ => 8 | MJoin => 1 | MLeave => 1 end.
 Definition w_rd (r : rstate) : nat :=
